@@ -46,9 +46,31 @@ def StepsWF (T : Table) : List Step → Prop
 def Step.inTheorem : Step → Bool
   | _ => true
 
-/-- named scope hypotheses violated by a program (none are open after the `fix:` commits) -/
+/-- an `unpivot` over at least two value columns: one UNION ALL with two or more branches over the same frozen CTE -/
+def Step.isWideUnpivot : Step → Bool
+  | .unpivot _ vals _ _ => decide (2 ≤ vals.length)
+  | _ => false
+
+/-- how far a program is into the pattern `orderBy … unpivot(≥2) … unpivot(≥2)` (0: nothing yet, 3: complete) -/
+def sortUnionProgress : Nat → List Step → Nat
+  | n, [] => n
+  | 0, s :: ss => sortUnionProgress (if s.isOrderBy then 1 else 0) ss
+  | 1, s :: ss => sortUnionProgress (if s.isWideUnpivot then 2 else 1) ss
+  | 2, s :: ss => sortUnionProgress (if s.isWideUnpivot then 3 else 2) ss
+  | n, _ :: _ => n
+
+/-- **engine scope** (third party, not sqlframe's): the statement for `orderBy … unpivot(≥2 columns) … unpivot(≥2 columns)` is a
+    UNION ALL nested in a UNION ALL over a CTE that carries an ORDER BY; DuckDB 1.2.2 run with more than one thread loses rows of
+    the outer UNION's later branches on such a statement (with `SET threads=1`, or the sorted CTE `MATERIALIZED`, it returns
+    all of them).  `Core/Sql.lean` is the engine's stated semantics, so the model and the specification agree on these
+    programs; the implementation on the default multi-threaded engine does not. -/
+def nestedUnionOverSort (steps : List Step) : Bool := sortUnionProgress 0 steps == 3
+
+/-- named scope hypotheses violated by a program (no sqlframe defect is open after the `fix:` commits; `H_engine…` names an
+    open defect of the engine) -/
 def violated (steps : List Step) : List String :=
   (if noAdjacentOrderBy steps then [] else ["D_adjacentOrderBy"]) ++
-  (if steps.all Step.inTheorem then [] else ["D_stepOutsideTheorem"])
+  (if steps.all Step.inTheorem then [] else ["D_stepOutsideTheorem"]) ++
+  (if nestedUnionOverSort steps then ["H_engineNestedUnionOverSort"] else [])
 
 end Sqlframe
